@@ -23,6 +23,8 @@ func init() {
 			// the regex mappers hand a non-nil automaton up the chain (a nil one is dereferenced by the next mapper)
 			{Units: `regex/parser/nfa\.`, Names: `#post\[(never-nil|automaton)\]`},
 			{Units: `regex/parser/ast\.`, Names: `#post\[(never-nil|node)\]`},
+			// the runes that index tables and bound loops in the mappers are code points
+			{Units: `regex/parser\.(toUnicodeChar|toASCIIChar)$`, Names: `#post\[code-point\]`},
 			{Units: `cmd/emerge\.main$`, Kinds: `^(callsite)$`},
 		},
 		Explain: "Proved (all inputs, no bound): every nil dereference, index/slice bound, type assertion, write to a nil map, explicit panic, division and sized-integer overflow obligation generated with zero annotation for every repository function that is under contract (listed in coverage.functions_under_contract; thin preconditions only: representation invariants of the symbol table, the LR value discipline L-STACK for the reduce actions, combinator shapes L-COMB for the regex mappers under contract), termination of the loops/recursions that declare a measure (NextToken, the pop loops), spec.Parse / nfa.Parse / ast.Parse never return (nil, nil) and return every recorded or syntactic error, and main reaches os.Exit(0) only for -help, -version or a Run that returned nil (every other path prints through Errorf and exits 1; no reachable panic in main). NOT decided: functions listed in coverage.functions_not_under_contract (notably the typed-tree builder ebnf/parser/ast and most regex mappers), and all dependency code an input executes (github.com/moorara/algo: assumed panic-free and terminating, A-DEP/A-TERM) - which is why the level is 'other', not 'proof'. No bounded fuzz stand-in has been built.",
